@@ -102,6 +102,20 @@ func (r *c03Run) extKill(after time.Duration) {
 // registered action (the plugin's death) before the goroutine carries on.
 var c03AtSend sync.Map // uint32 -> func()
 
+// gatedWriter blocks every Write until it is released (a pipe nobody reads yet).
+type gatedWriter struct {
+	once, rel sync.Once
+	entered   chan struct{}
+	open      chan struct{}
+}
+
+func (g *gatedWriter) Write(p []byte) (int, error) {
+	g.once.Do(func() { close(g.entered) })
+	<-g.open
+	return len(p), nil
+}
+func (g *gatedWriter) release() { g.rel.Do(func() { close(g.open) }) }
+
 func TestC03(t *testing.T) {
 	plugin.VerifSetHook(func(name string, id uint32) {
 		if name == "grpcbroker.stream.sending" {
@@ -127,6 +141,14 @@ func TestC03(t *testing.T) {
 		pcfg := pluginCfgFor(wire)
 		var env []string
 		name, arg, _ := strings.Cut(p.Scenario, ":")
+		var gate *gatedWriter
+		if name == "sync-writer-drained-after-kill" {
+			// the host collects the plugin's stdout through a pipe that it only starts reading once Kill
+			// has returned: until then a Write into SyncStdout blocks
+			gate = &gatedWriter{entered: make(chan struct{}), open: make(chan struct{})}
+			cfg.SyncStdout = gate
+			defer gate.release()
+		}
 		if name == "hook" {
 			act := "kill"
 			if p.Death == "exit" {
@@ -325,6 +347,18 @@ func TestC03(t *testing.T) {
 						return nil // GRPCBroker.Accept only has to return
 					})
 				}
+			}
+		case "sync-writer-drained-after-kill":
+			if bring() {
+				r.call("pre", "Call(write)", func() error {
+					_, err := r.cli.Do("write", "plan", map[string]any{"seed": 1, "frames": []map[string]any{{"s": "o", "n": 3000}, {"s": "o", "n": 100}}})
+					return err
+				})
+				select {
+				case <-gate.entered:
+				case <-time.After(10 * time.Second):
+				}
+				go r.extKill(time.Duration(p.Arg) * time.Millisecond)
 			}
 		case "random-instant":
 			if bring() {
